@@ -11,6 +11,7 @@ from passlib.utils import (
     handlers as uh,
 )
 from passlib.utils import (
+    as_bool,
     splitcomma,
     to_unicode,
 )
@@ -42,6 +43,11 @@ def _coerce_vary_rounds(value):
         return float(value)
 
 
+def _coerce_truncate_error(value):
+    """parse truncate_error string ("true", "false", ...) to bool"""
+    return as_bool(value, param="truncate_error")
+
+
 # set of options which aren't allowed to be set via policy
 _forbidden_scheme_options = set(["salt"])
 # 'salt' - not allowed since a fixed salt would defeat the purpose.
@@ -56,6 +62,7 @@ _coerce_scheme_options = dict(
     default_rounds=int,
     vary_rounds=_coerce_vary_rounds,
     salt_size=int,
+    truncate_error=_coerce_truncate_error,
 )
 
 
